@@ -430,7 +430,10 @@ func (g *gctx) histFamily(name string, nsets int, invalidOK bool) []ent {
 			g.class("om-created-line")
 		}
 		if r.Chance(1, 8) && i < len(sets)-1 {
-			out = append(out, g.nonMember(name, nil, ts, 0))
+			// (its own label set: a non-member with the label set of the open collection would
+			// report that collection's start timestamp, which only the scripted parser can
+			// make differ from its own)
+			out = append(out, g.nonMember(name, [][2]string{{"nm", "1"}}, ts, 0))
 			g.class("nonmember-between-groups")
 		}
 	}
